@@ -14,7 +14,7 @@ BOUNDS = {
     'quick': 'knowledge base = 21 fixed clauses (facts p/1 q/1 r/2 s/0 n/1 l/1 with two symbolic integers among the data; member/2, len/2, app/3, eq/2) plus one rule t($X) :- BODY and '
              'optionally the fact t(z); BODY = every conjunction / disjunction / mixed shape of up to 3 goals (6 shapes) over a 7-goal menu (calls p q r, `=` with an atom and between variables, `<`) and all shapes of up to 2 goals over 14 goals (adds arithmetic `$Y = $X + 1`, facts with variables inside box(..) and list patterns, duplicate facts, a fact followed by a rule for the same goal, eq($Y, 7), a 3-ary fact); queries t($X) and t(b); up to 8 answers compared one by one (resolved query term up to renaming of unbound variables), then exhaustion; '
              'solve_all strings for a subset; the same programs from source text through parse_rule for 2-goal bodies',
-    'thorough': 'a 16-goal menu (adds len, app, not, nested lists, second arithmetic form), queries also t($_) and a two-variable wrapper, source-text family for all shapes',
+    'thorough': 'all 6 shapes of up to 3 goals over an 18-goal menu (adds member, len, app, arithmetic and the facts with inner variables), queries also t($_) and a two-variable wrapper, source-text family for all shapes',
 }
 OUTSIDE = 'programs whose reference search exceeds 4000 resolution steps, needs an occurs check, or runs a built-in outside its documented domain (arithmetic on unbound or non-numeric operands, overflow); time(...); more than 8 answers'
 ASSUMPTIONS = ['symbolic integers in the data stand for every pair of i64 values: each comparison/equality on them is decided by the solver and forks when both outcomes are possible']
@@ -31,7 +31,7 @@ def cases(tier, seed):
     if tier == 'quick':
         bodies = P.bodies(menu[:7], 3) + [b for b in P.bodies(menu + extra_menu, 2) if any(g in extra_menu or g == menu[7] for g in (b[1] if b[0] in ('gand', 'gor') else (b,)))]
     else:
-        bodies = P.bodies(menu + extra_menu, 3)
+        bodies = P.bodies(menu[:12] + extra_menu, 3)
     for b in bodies:
         for extra in (False, True):
             if extra and b[0] not in ('gor', 'gand'): pass
